@@ -19,7 +19,17 @@ def _work(kind, payload):
             fn, args = payload
             return fn(*args)
         raise ValueError(kind)
-    except Exception:
+    except Exception as e:
+        from .report import raised_by_the_code_under_test
+        where = raised_by_the_code_under_test(e)
+        if where:
+            # the REAL code of the repository raised while it was run on a legal configuration (e.g. the generator cannot compile this
+            # combination of children): that is a violation with a concrete configuration, not a fault of the checker
+            return {'unit': _label(kind, payload), 'verdicts': [{'obligation': 'the real code handles this legal configuration without raising', 'kind': 'ground',
+                                                                  'verdict': 'sat', 'solver': 'native', 'time_s': 0.0, 'path': None, 'model': None,
+                                                                  'replay': {'reproduced': True, 'raised': f'{type(e).__name__}: {e}', 'where': where,
+                                                                             'traceback': traceback.format_exc()[-1200:]}}],
+                    'ground': [], 'paths': 1}
         return {'unit': 'job', 'crash': traceback.format_exc(), 'verdicts': [], 'ground': [], 'error': ('crash', traceback.format_exc()[-800:])}
 
 
